@@ -8,8 +8,10 @@ one search (`index/hnsw.go`: `storeVertex`, `removeVertex`, `Remove`'s hand-over
   tombstoned *at that instant*), then CAS the entry point (`remHandover`).
 * `Insert` of a vertex above the entry point's level stores the new entry point (`insPromote`).
 * A search reads the entry point once (`searchStart`), then visits linked vertices one by one,
-  testing the tombstone at each visit (`searchVisit`); what it returns is drawn from the start
-  vertex and the vertices it found not tombstoned.
+  testing the tombstone at each visit (`searchVisit`). Its result is assembled from the start
+  vertex and the vertices it found not tombstoned, testing the tombstone once more (`searchReturn`:
+  `Search` skips a vertex that `isDeleted()` when it builds the result — the start vertex is the one
+  vertex whose tombstone was not tested on the way).
 
 Writers: each writer `i` has a program counter `wpc i`; with a single writer the steps of one
 `Remove` are consecutive *writer* steps (searches may still interleave anywhere).
@@ -33,9 +35,10 @@ structure Cfg where
   start : Option Nat         -- the entry point it read
   okVisited : List Nat       -- vertices it found not tombstoned
   liveDuring : Nat → Bool    -- stored at some instant since the search started
+  returned : List Nat        -- what the search hands back
 
 def init : Cfg :=
-  ⟨fun _ => false, fun _ => false, fun _ => false, none, fun _ => .idle, false, none, [], fun _ => false⟩
+  ⟨fun _ => false, fun _ => false, fun _ => false, none, fun _ => .idle, false, none, [], fun _ => false, []⟩
 
 def setF {β : Type} (f : Nat → β) (k : Nat) (x : β) : Nat → β := fun j => if j = k then x else f j
 
@@ -65,6 +68,10 @@ inductive Step (nw : Nat) : Cfg → Cfg → Prop where
       Step nw c { c with started := true, start := c.entry, liveDuring := c.stored }
   | searchVisit (c : Cfg) (v : Nat) : c.started = true → c.ever v = true → c.tomb v = false →
       Step nw c { c with okVisited := v :: c.okVisited }
+  /-- result assembly: a collected vertex (the start vertex or a visited one) that is not
+  tombstoned at this instant -/
+  | searchReturn (c : Cfg) (v : Nat) : c.started = true → (c.start = some v ∨ v ∈ c.okVisited) →
+      c.tomb v = false → Step nw c { c with returned := v :: c.returned }
 
 inductive Reach (nw : Nat) (c0 : Cfg) : Cfg → Prop where
   | refl : Reach nw c0 c0
